@@ -4,13 +4,14 @@ use crate::prog::*;
 use crate::rng::Rng;
 use crate::search::*;
 
-pub fn eval(p: &Prog) -> (String, Option<String>, bool) {
+pub fn eval(p: &Prog) -> (String, Option<String>, bool, u64) {
     let out = run_prog(p);
+    let fuel = model_fuel(&out);
     let line = show_run(&out, false);
     let answers = match &out {
         RunOut::Answers(a, _) => a,
-        RunOut::Budget(_) => return (line, Some("terminating dfs program exhausted the step budget".into()), true),
-        RunOut::Panic(s) => return (line, Some(format!("panic at {}", s)), true),
+        RunOut::Budget(_) => return (line, Some("terminating dfs program exhausted the step budget".into()), true, fuel),
+        RunOut::Panic(s) => return (line, Some(format!("panic at {}", s)), true, fuel),
     };
     let got: Vec<String> = answers.iter().map(|a| a.show("")).collect();
     let mut fail = None;
@@ -26,7 +27,7 @@ pub fn eval(p: &Prog) -> (String, Option<String>, bool) {
         }
         None => {}
     }
-    (line, fail, got.len() > 1)
+    (line, fail, got.len() > 1, fuel)
 }
 
 fn corpus() -> Vec<&'static str> {
@@ -41,8 +42,8 @@ fn corpus() -> Vec<&'static str> {
 }
 
 fn record(p: &Prog, out: &mut Out) {
-    let (line, fail, nt) = eval(p);
-    out.push(p.line(), line, fail, nt);
+    let (line, fail, nt, fuel) = eval(p);
+    out.push(p.line_f(fuel), line, fail, nt);
 }
 
 pub fn replay(line: &str, out: &mut Out) {
@@ -58,8 +59,8 @@ pub fn run(seed: u64, thorough: bool, out: &mut Out) {
     // of a dfs block overtake an earlier one that needs more reification steps
     {
         let p = Prog::parse("prog 1 1 0 - dfs 1 conde 2 1 eq v0 cons i1 cons cons i2 nil nil 1 eq v0 cons i2 nil");
-        let (line, fail, nt) = eval(&p);
-        out.push_tagged("KF:C05-reify-order", p.line(), line, fail, nt);
+        let (line, fail, nt, fuel) = eval(&p);
+        out.push_tagged("KF:C05-reify-order", p.line_f(fuel), line, fail, nt);
     }
     let n = if thorough { 30000 } else { 1000 };
     for i in 0..n {
